@@ -102,7 +102,7 @@ func (ch *child) runSvc(sp *Spec) (restart bool) {
 			ch.rec.Inconclusive(fmt.Sprintf("case %d: authenticated service connection got no ExC2 reply (got=%v ok=%v err=%s)", sp.ID, got, ok, e))
 		}
 		cl.Close()
-		if err := ch.barrier(); err != nil {
+		if err := ch.barrier(nil, ""); err != nil {
 			return ch.wedge(sp, "after service control", err)
 		}
 		ch.aliceScan = ch.alice.Count()
@@ -146,7 +146,7 @@ func (ch *child) runSvc(sp *Spec) (restart bool) {
 				map[string]any{"spec": sp, "reply": short(m.Raw)})
 		}
 	}
-	if err := ch.barrier(); err != nil {
+	if err := ch.barrier(nil, ""); err != nil {
 		return ch.wedge(sp, "after service case", err)
 	}
 	// frames: at most one Register reply with Success=false
